@@ -9,6 +9,7 @@ sequence.  The only facts used about the budgets the code pre-computes are `budg
 import Rl4co.Env.Op
 import Rl4co.Spec.Op
 import Rl4co.Proofs.OpShared
+import Rl4co.Proofs.OpGenerated
 
 namespace Rl4co.Op
 open Rl4co.Spec.Op Rl4co.Prize
@@ -73,8 +74,11 @@ theorem len_of_run (i : Inst) {s s' : State} {as : List Nat} (h : Run env i s as
   induction h with
   | nil s => simp [pathLen]
   | @cons s s' a as _ _ _ ih =>
-    obtain ⟨ih1, ih2⟩ := ih
-    simp only [env, step] at ih1 ih2
+    obtain ⟨ih1', ih2'⟩ := ih
+    have hl := step_len i s a  -- through the generated `_step` expression
+    have ih2 : s'.cur = (a :: as).getLast (by simp) := ih2'
+    have ih1 : s'.len = (step i s a).len + pathLen i.D (a :: as) := ih1'
+    rw [hl] at ih1
     refine ⟨?_, ?_⟩
     · rw [ih1, pathLen_cons_cons]; omega
     · rw [ih2]; exact (List.getLast_cons (List.cons_ne_nil a as)).symm
